@@ -336,11 +336,62 @@ pub fn run_c29(ctx: &Ctx) -> i32 {
         }
     });
     rep.merge(r2);
-    for (k, need) in [("events/step", 100_000u64), ("events/call", 5_000), ("events/create", 500), ("events/log", 200), ("short_circuited_calls", 100), ("short_circuited_creates", 20)] {
+    // third variant: ONE Evm (and so one set of inspector input stacks) for a whole history, with a
+    // database fault injected into some transactions: an aborted transaction must not unbalance
+    // the notifications of the next one. Fourth variant: the inspector register is appended after a
+    // register that already boxed the instruction table (every instruction must still be bracketed).
+    let n3 = ctx.n(3_000, 300_000);
+    let r3 = par_shards(ctx, 32, |_si, rng, rep| {
+        for k in 0..(n3 / 32).max(1) {
+            let spec = random_spec(rng, true);
+            let mut case = if rng.chance(1, 6) { super::c26_eof::gen_eof_case(rng) } else { gen_case(rng, spec, 4) };
+            // make aborted transactions likely to have frames open: several transactions, faults in all but the last
+            while case.txs.len() < 3 {
+                let mut t = case.txs[0].clone();
+                t.nonce = None;
+                case.txs.push(t);
+            }
+            for t in case.txs.iter_mut() {
+                t.nonce = None;
+            }
+            let preboxed = k % 4 == 3;
+            let faults: Vec<Option<(DbMethod, u64)>> = (0..case.txs.len())
+                .map(|i| {
+                    if !preboxed && i + 1 < case.txs.len() && rng.chance(2, 3) {
+                        Some((*rng.pick(&[DbMethod::Basic, DbMethod::Basic, DbMethod::Storage, DbMethod::CodeByHash]), 1 + rng.below(12)))
+                    } else {
+                        None
+                    }
+                })
+                .collect();
+            rep.eval();
+            let run = crate::wrun::run_reused_mon(&case, &faults, preboxed, crate::wrun::mon_cfg_for(case.spec, false));
+            let cj = || json!({"case": case.to_json(), "faults": faults.iter().map(|f| f.map(|(m, k)| format!("{:?}#{k}", m))).collect::<Vec<_>>(), "instruction_table_boxed_before_inspector_register": preboxed, "mode": "one Evm reused for the whole history"});
+            if let Some((i, p)) = &run.panic {
+                report_panic(rep, "C29", p, json!({"case": cj(), "tx_index": i}));
+                continue;
+            }
+            for v in &run.mon.violations {
+                rep.violation(v.sig.clone(), v.what.clone(), json!({"case": cj(), "monitor": v.prop}));
+            }
+            rep.count(if preboxed { "cases_with_preboxed_instruction_table" } else { "cases_on_one_reused_evm_with_faults" });
+            let aborted = run.outcomes.iter().filter(|o| matches!(o, TxOutcome::DbError(_))).count() as u64;
+            rep.add("transactions_aborted_by_injected_db_fault", aborted);
+            if aborted > 0 && run.outcomes.len() as u64 > aborted {
+                rep.count("histories_continuing_after_an_aborted_transaction");
+            }
+            rep.add("events/step(reused)", run.mon.n_step);
+            if run.mon.n_step >= 5 {
+                rep.nontrivial(case.hash() ^ 0x3e);
+            }
+        }
+    });
+    rep.merge(r3);
+    for (k, need) in [("events/step", 100_000u64), ("events/call", 5_000), ("events/create", 500), ("events/log", 200), ("short_circuited_calls", 100), ("short_circuited_creates", 20), ("histories_continuing_after_an_aborted_transaction", 100), ("cases_with_preboxed_instruction_table", 100), ("instructions_dispatched(H1 counter)", 100_000)] {
         let have = rep.counter(k);
         rep.floor(k, have, need);
     }
-    finish_online(ctx, rep, "C29", &format!("Event grammar checked online: LIFO pairing of call/create/eofcreate with *_end of the same kind and equal inputs, nothing open at the end of a transaction, exactly one step_end between consecutive steps of a frame, initialize_interp once per frame, log notifications equal in number and content to logs appended to the journal per instruction; a second run uses an inspector that answers every 3rd nested call/create itself. {W_RULE}"), std_assumptions())
+    finish_online(ctx, rep, "C29", &format!("Event grammar checked online: LIFO pairing of call/create/eofcreate with *_end of the same kind and equal inputs, nothing open at the end of a transaction, exactly one step_end between consecutive steps of a frame, initialize_interp once per frame, log notifications equal in number and content to logs appended to the journal per instruction; a second run uses an inspector that answers every 3rd nested call/create itself; a third runs whole histories on ONE Evm with database faults injected into some transactions (the next transaction's notifications must still pair up with their own inputs); a fourth appends the inspector register after a register that already boxed the instruction table. In every run the number of step and step_end notifications per transaction must equal the number of instructions actually dispatched (thread-local counter of hook H1). {W_RULE}"), std_assumptions())
 }
 
 pub fn run_c30(ctx: &Ctx) -> i32 {
